@@ -3,7 +3,7 @@ import TF.Proofs.MmrUpdAppend
 Helper lemmas for C05: `MmrMembershipProof::batch_update_from_append` on from-scratch paths (any list of leaf indices)
 returns the from-scratch paths of the longer range and reports exactly the changed slots.
 -/
-namespace TF.MmrE
+namespace TF.MmrE.UpdAppend
 open TF TF.Gen TF.Model.Mmr TF.Model.MmrE TF.Spec.MmrE
 
 /-- positions (counted from `s`) of the list elements satisfying `p` -/
@@ -184,4 +184,4 @@ theorem batchUpdateFromAppend_spec (n : Nat) (lis : List Nat) (hall : ∀ i ∈ 
 
 end B
 
-end TF.MmrE
+end TF.MmrE.UpdAppend
